@@ -50,7 +50,7 @@ def enumerate_cases(tier, seed):
         cases.append({"id": "f64|" + g.canon(s), "spec": s, "x64": True, "tier": tier, "seed": seed})
     f32 = [s for s in specs if g.info(s).depth <= (1 if tier != "quick" else 0)]
     if tier == "quick":
-        f32 += [s for s in specs if g.info(s).depth == 1 and s["k"] in ("Invert", "Scan")]
+        f32 += [s for s in specs if g.info(s).depth == 1 and s["k"] == "Invert"]
     for s in f32:
         cases.append({"id": "f32|" + g.canon(s), "spec": s, "x64": False, "tier": tier, "seed": seed})
     for f in FACTORIES:
